@@ -330,6 +330,22 @@ func (g *Graph) guardFacts() *Solution[Facts] {
 			case StCond:
 				n := s.clone()
 				n.assume(st.Node.(ast.Expr), st.Val)
+				// `_, ok := m[k]` ... `if ok` / `if !ok`: also record the membership atom "m[k]"
+				{
+					ce, val := ast.Unparen(st.Node.(ast.Expr)), st.Val
+					for {
+						if u, isU := ce.(*ast.UnaryExpr); isU && u.Op == token.NOT {
+							ce, val = ast.Unparen(u.X), !val
+							continue
+						}
+						break
+					}
+					if id, isId := ce.(*ast.Ident); isId {
+						if ix := commaOkSource(g, info, id, st.Node); ix != nil {
+							n.m[exprStr(ix)] = val
+						}
+					}
+				}
 				if call, trueErr := g.P.errCheckOf(info, st.Node.(ast.Expr)); call != nil && st.Val != trueErr {
 					g.P.applyLenPostcond(info, &n, call)
 				}
@@ -438,6 +454,13 @@ func (g *Graph) guardFacts() *Solution[Facts] {
 						switch x := rhs.(type) {
 						case *ast.CallExpr:
 							addMake(lhs, x)
+							if calleeName(info, x) == "sort.Search" && len(x.Args) == 2 {
+								// 0 <= result <= n
+								n.setRel(token.LSS, lhs, &ast.BasicLit{Kind: token.INT, Value: "0"}, false)
+								if !mentions(normStr(info, x.Args[0]), lhsStr) {
+									n.setRel(token.LSS, x.Args[0], lhs, false)
+								}
+							}
 							if exprStr(x.Fun) == "len" && len(x.Args) == 1 && !mentions(normStr(info, x), lhsStr) {
 								n.setRel(token.EQL, lhs, x, true)
 							}
@@ -679,4 +702,51 @@ func joinFacts(g *Graph, a, b Facts, widen bool) Facts {
 		}
 	}
 	return n
+}
+
+// commaOkSource: id is the `ok` of `v, ok := m[k]` in the init of the if statement whose condition is cond
+// (or in the statement right before it): returns the index expression m[k].
+func commaOkSource(g *Graph, info *types.Info, id *ast.Ident, cond ast.Node) *ast.IndexExpr {
+	obj := info.Uses[id]
+	// climb to the enclosing if statement
+	var ifs *ast.IfStmt
+	for cur := cond; cur != nil; cur = g.P.Parent(cur) {
+		if s, ok := cur.(*ast.IfStmt); ok {
+			ifs = s
+			break
+		}
+		if _, ok := cur.(ast.Stmt); ok {
+			break
+		}
+	}
+	if ifs == nil {
+		return nil
+	}
+	from := func(s ast.Stmt) *ast.IndexExpr {
+		as, ok := s.(*ast.AssignStmt)
+		if !ok || len(as.Lhs) != 2 || len(as.Rhs) != 1 {
+			return nil
+		}
+		lid, ok := as.Lhs[1].(*ast.Ident)
+		if !ok || (info.Defs[lid] != obj && info.Uses[lid] != obj) {
+			return nil
+		}
+		ix, ok := ast.Unparen(as.Rhs[0]).(*ast.IndexExpr)
+		if !ok {
+			return nil
+		}
+		if _, isMap := info.TypeOf(ix.X).Underlying().(*types.Map); !isMap {
+			return nil
+		}
+		return ix
+	}
+	if ifs.Init != nil {
+		if ix := from(ifs.Init); ix != nil {
+			return ix
+		}
+	}
+	if i, list := g.P.stmtIndex(ifs); i > 0 {
+		return from(list[i-1])
+	}
+	return nil
 }
